@@ -6,7 +6,7 @@ Local Open Scope Z_scope.
 Ltac Zify.zify_post_hook ::= Z.div_mod_to_equations.
 
 Ltac evch := cbn [prog_env eval_args callee_init finish_call copy_in copy_out try_update update lookup combine map app String.append
-                 String.eqb Ascii.eqb Bool.eqb fparams flocals fbody vars inb outb budget_var fail_var strm_var cell_token List.length Nat.eqb eval set_var cast
+                 String.eqb Ascii.eqb Bool.eqb fparams flocals fbody vars inb outb budget_var fail_var strm_var cells_var cell_token List.length Nat.eqb eval set_var cast
                  prog_sbdf_allocate_array prog_sbdf_dispose_array prog_sbdf_copy_array prog_sbdf_str_create_len prog_sbdf_str_create
                  prog_sbdf_str_destroy prog_sbdf_str_copy prog_sbdf_ba_create prog_sbdf_ba_destroy prog_sbdf_get_array_length prog_sbdf_str_len
                  truth binop_int b2z negb];
@@ -14,6 +14,8 @@ Ltac evch := cbn [prog_env eval_args callee_init finish_call copy_in copy_out tr
 
 Section WithStream.
 Variable sx : list Z.
+(* ... nor the cell heap (structs): it is carried along so that functions working on structs can call these *)
+Variable hc : list (option (list val)).
 
 Lemma strlen_l_spec bytes post : Forall (fun b => b <> 0) bytes -> strlen_l (bytes ++ 0 :: post) = Some (zlen bytes).
 Proof.
@@ -22,7 +24,7 @@ Proof.
 Qed.
 
 Definition sc1 (q : Z) (r bv : val) (k : Z) (m o : list Z) : state :=
-  {| vars := [("str"%string, VPtr RIn q); ("$ret"%string, r); (budget_var, bv); (fail_var, VInt k); (strm_var, VBytes sx)]; inb := m; outb := o |}.
+  {| vars := [("str"%string, VPtr RIn q); ("$ret"%string, r); (budget_var, bv); (fail_var, VInt k); (strm_var, VBytes sx); (cells_var, VHeap hc)]; inb := m; outb := o |}.
 
 Lemma str_create_bs pre bytes post r bv k o : Forall (fun b => b <> 0) bytes -> zlen bytes + 1 <= int_max ->
   let m := pre ++ bytes ++ 0 :: post in
@@ -35,11 +37,11 @@ Proof.
   assert (Hsk : skipn (Z.to_nat (zlen pre)) m = bytes ++ 0 :: post) by (unfold m; apply skipn_app_zlen).
   assert (Hsrc : src_ok (VPtr RIn (zlen pre)) (zlen bytes) m bytes).
   { split; [lia|]. split; [lia|]. rewrite Hsk. unfold zlen. rewrite Nat2Z.id. rewrite firstn_app, Nat.sub_diag, firstn_all. cbn [firstn]. now rewrite app_nil_r. }
-  pose proof (str_create_len_bs sx (VPtr RIn (zlen pre)) (zlen bytes) VUndef bv k m o bytes Pb Hmax Hsrc) as CL.
+  pose proof (str_create_len_bs sx hc (VPtr RIn (zlen pre)) (zlen bytes) VUndef bv k m o bytes Pb Hmax Hsrc) as CL.
   assert (Hargs : eval_args [AVal (EVar "str"); AVal (ECast TInt (EStrlen (EVar "str")))]
-            {| vars := [("str"%string, VPtr RIn (zlen pre)); ("$ret"%string, r); (budget_var, bv); (fail_var, VInt k); (strm_var, VBytes sx)]; inb := m; outb := o |}
+            {| vars := [("str"%string, VPtr RIn (zlen pre)); ("$ret"%string, r); (budget_var, bv); (fail_var, VInt k); (strm_var, VBytes sx); (cells_var, VHeap hc)]; inb := m; outb := o |}
           = Some ([VPtr RIn (zlen pre); VInt (zlen bytes)], [None; None],
-                  {| vars := [("str"%string, VPtr RIn (zlen pre)); ("$ret"%string, r); (budget_var, bv); (fail_var, VInt k); (strm_var, VBytes sx)]; inb := m; outb := o |})).
+                  {| vars := [("str"%string, VPtr RIn (zlen pre)); ("$ret"%string, r); (budget_var, bv); (fail_var, VInt k); (strm_var, VBytes sx); (cells_var, VHeap hc)]; inb := m; outb := o |})).
   { cbn [eval_args eval lookup String.eqb Ascii.eqb Bool.eqb vars inb]. rewrite zlen_length, Hlm.
     replace ((0 <=? zlen pre) && (zlen pre <=? zlen pre + zlen bytes + 1 + zlen post)) with true by lia.
     rewrite Hsk, (strlen_l_spec bytes post Hnz). cbn [cast]. unfold int_max in Hmax. rewrite wrap_id by (unfold int_min, int_max; lia). reflexivity. }
@@ -50,7 +52,7 @@ Qed.
 
 (* sbdf_get_array_length / sbdf_str_len called from a frame that carries the failure oracle *)
 Definition ga2 (p : Z) (bv : val) (k : Z) (m o : list Z) : state :=
-  {| vars := [("array"%string, VPtr RIn p); (budget_var, bv); (fail_var, VInt k); (strm_var, VBytes sx)]; inb := m; outb := o |}.
+  {| vars := [("array"%string, VPtr RIn p); (budget_var, bv); (fail_var, VInt k); (strm_var, VBytes sx); (cells_var, VHeap hc)]; inb := m; outb := o |}.
 
 Lemma get_array_length_bs2 pre n rest bv k o : 0 <= n < 2147483648 ->
   bsE prog_env (fbody prog_sbdf_get_array_length) (ga2 (zlen pre + 4) bv k (pre ++ le32 n ++ rest) o)
@@ -65,7 +67,7 @@ Proof.
 Qed.
 
 Definition sl2 (p : Z) (c bv : val) (k : Z) (m o : list Z) : state :=
-  {| vars := [("str"%string, VPtr RIn p); ("$c1"%string, c); (budget_var, bv); (fail_var, VInt k); (strm_var, VBytes sx)]; inb := m; outb := o |}.
+  {| vars := [("str"%string, VPtr RIn p); ("$c1"%string, c); (budget_var, bv); (fail_var, VInt k); (strm_var, VBytes sx); (cells_var, VHeap hc)]; inb := m; outb := o |}.
 
 Lemma str_len_bs2 pre bytes post c bv k o : zlen bytes + 1 < 2147483648 ->
   bsE prog_env (fbody prog_sbdf_str_len) (sl2 (zlen pre + 4) c bv k (str_mem pre bytes post) o)
@@ -78,7 +80,7 @@ Proof.
 Qed.
 
 Definition scp (p : Z) (c r bv : val) (k : Z) (m o : list Z) : state :=
-  {| vars := [("inp"%string, VPtr RIn p); ("$c2"%string, c); ("$ret"%string, r); (budget_var, bv); (fail_var, VInt k); (strm_var, VBytes sx)]; inb := m; outb := o |}.
+  {| vars := [("inp"%string, VPtr RIn p); ("$c2"%string, c); ("$ret"%string, r); (budget_var, bv); (fail_var, VInt k); (strm_var, VBytes sx); (cells_var, VHeap hc)]; inb := m; outb := o |}.
 
 Lemma str_copy_bs pre bytes post c r bv k o : zlen bytes + 1 <= int_max ->
   let m := str_mem pre bytes post in
@@ -95,7 +97,7 @@ Proof.
   assert (Hsrc : src_ok (VPtr RIn (zlen pre + 4)) (zlen bytes) m bytes).
   { split; [lia|]. split; [lia|]. rewrite Hsk. unfold zlen. rewrite Nat2Z.id. rewrite firstn_app, Nat.sub_diag, firstn_all. cbn [firstn]. now rewrite app_nil_r. }
   pose proof (str_len_bs2 pre bytes post VUndef bv k o ltac:(lia)) as SL2.
-  pose proof (str_create_len_bs sx (VPtr RIn (zlen pre + 4)) (zlen bytes) VUndef bv k m o bytes Pb ltac:(unfold int_max; lia) Hsrc) as CL.
+  pose proof (str_create_len_bs sx hc (VPtr RIn (zlen pre + 4)) (zlen bytes) VUndef bv k m o bytes Pb ltac:(unfold int_max; lia) Hsrc) as CL.
   eexists.
   eapply bsE_seq; [eapply bsE_call; [reflexivity|evch; reflexivity|reflexivity|exact SL2|unfold sl2; evch; reflexivity]|].
   destruct (k =? 0) eqn:Ek.
@@ -104,7 +106,7 @@ Proof.
 Qed.
 
 Definition bc (sv : val) (n : Z) (p c bv : val) (k : Z) (m o : list Z) : state :=
-  {| vars := [("str"%string, sv); ("length"%string, VInt n); ("ptr"%string, p); ("$c1"%string, c); (budget_var, bv); (fail_var, VInt k); (strm_var, VBytes sx)]; inb := m; outb := o |}.
+  {| vars := [("str"%string, sv); ("length"%string, VInt n); ("ptr"%string, p); ("$c1"%string, c); (budget_var, bv); (fail_var, VInt k); (strm_var, VBytes sx); (cells_var, VHeap hc)]; inb := m; outb := o |}.
 
 Lemma ba_create_bs sv n p c bv k m o payload : 0 <= n -> n <= int_max -> src_ok sv n m payload ->
   exists c', bsE prog_env (fbody prog_sbdf_ba_create) (bc sv n p c bv k m o)
@@ -113,7 +115,7 @@ Lemma ba_create_bs sv n p c bv k m o payload : 0 <= n -> n <= int_max -> src_ok 
 Proof.
   intros Hn Hmax Hsrc. cbn [fbody prog_sbdf_ba_create]. unfold bc. unfold int_max in *.
   pose proof (src_len sv n m payload Hn Hsrc) as Hlen. pose proof (zlen_nonneg m) as Pm.
-  pose proof (allocate_array_bs sx n VUndef bv k m o Hn ltac:(unfold int_max; lia)) as AL.
+  pose proof (allocate_array_bs sx hc n VUndef bv k m o Hn ltac:(unfold int_max; lia)) as AL.
   destruct (k =? 0) eqn:Ek.
   - eexists. eapply bsE_seq.
     + eapply bsE_seq; [eapply bsE_call; [reflexivity|destruct sv as [z| [|] q | | |bs|cb ci|hh]; try contradiction; evch; reflexivity|reflexivity|exact AL|unfold aa; destruct sv as [z| [|] q | | |bs|cb ci|hh]; try contradiction; evch; reflexivity]|].
@@ -145,7 +147,7 @@ Qed.
 Theorem str_create_source pre bytes post k : Forall (fun b => b <> 0) bytes -> zlen bytes + 1 <= int_max ->
   let m := pre ++ bytes ++ 0 :: post in
   exists f0, forall f, (f0 <= f)%nat -> exists fin,
-    callH prog_env f prog_sbdf_str_create [VPtr RIn (zlen pre)] m k sx = OReturn (if k =? 0 then VNull else VPtr RIn (zlen m + 4)) fin /\
+    callC prog_env f prog_sbdf_str_create [VPtr RIn (zlen pre)] m k sx hc = OReturn (if k =? 0 then VNull else VPtr RIn (zlen m + 4)) fin /\
     inb fin = (if k =? 0 then m else str_mem m bytes []).
 Proof.
   intros Hnz Hmax m. pose proof (str_create_bs pre bytes post VUndef (VInt 0) k [] Hnz Hmax) as B. cbn zeta in B. fold m in B.
@@ -155,7 +157,7 @@ Qed.
 Theorem str_copy_source pre bytes post k : zlen bytes + 1 <= int_max ->
   let m := str_mem pre bytes post in
   exists f0, forall f, (f0 <= f)%nat -> exists fin,
-    callH prog_env f prog_sbdf_str_copy [VPtr RIn (zlen pre + 4)] m k sx = OReturn (if k =? 0 then VNull else VPtr RIn (zlen m + 4)) fin /\
+    callC prog_env f prog_sbdf_str_copy [VPtr RIn (zlen pre + 4)] m k sx hc = OReturn (if k =? 0 then VNull else VPtr RIn (zlen m + 4)) fin /\
     inb fin = (if k =? 0 then m else str_mem m bytes []).
 Proof.
   intros Hmax m. destruct (str_copy_bs pre bytes post VUndef VUndef (VInt 0) k [] Hmax) as (c' & B). cbn zeta in B. fold m in B.
@@ -164,7 +166,7 @@ Qed.
 
 Theorem ba_create_source q n m k : 0 <= n -> n <= int_max -> 0 <= q -> q + n <= zlen m ->
   exists f0, forall f, (f0 <= f)%nat -> exists fin,
-    callH prog_env f prog_sbdf_ba_create [VPtr RIn q; VInt n] m k sx = OReturn (if k =? 0 then VNull else VPtr RIn (zlen m + 4)) fin /\
+    callC prog_env f prog_sbdf_ba_create [VPtr RIn q; VInt n] m k sx hc = OReturn (if k =? 0 then VNull else VPtr RIn (zlen m + 4)) fin /\
     inb fin = (if k =? 0 then m else ba_mem m (firstn (Z.to_nat n) (skipn (Z.to_nat q) m)) []).
 Proof.
   intros Hn Hmax Hq Hb.
@@ -173,24 +175,24 @@ Proof.
 Qed.
 
 Lemma ba_destroy_bs p bv k m o : 4 <= p <= zlen m ->
-  bsE prog_env (fbody prog_sbdf_ba_destroy) (ds sx p bv k m o) (ONormal (ds sx p bv k m o)).
+  bsE prog_env (fbody prog_sbdf_ba_destroy) (ds sx hc p bv k m o) (ONormal (ds sx hc p bv k m o)).
 Proof.
   intros Hp. cbn [fbody prog_sbdf_ba_destroy]. unfold ds.
-  eapply bsE_call_void; [reflexivity|evch; reflexivity|reflexivity|apply (dispose_array_bs sx p bv k m o Hp)|unfold da; evch; reflexivity].
+  eapply bsE_call_void; [reflexivity|evch; reflexivity|reflexivity|apply (dispose_array_bs sx hc p bv k m o Hp)|unfold da; evch; reflexivity].
 Qed.
 
 Theorem destroy_source p m k : 4 <= p <= zlen m ->
   exists f0, forall f, (f0 <= f)%nat ->
-    (exists fin, callH prog_env f prog_sbdf_str_destroy [VPtr RIn p] m k sx = ONormal fin /\ inb fin = m) /\
-    (exists fin, callH prog_env f prog_sbdf_ba_destroy [VPtr RIn p] m k sx = ONormal fin /\ inb fin = m).
+    (exists fin, callC prog_env f prog_sbdf_str_destroy [VPtr RIn p] m k sx hc = ONormal fin /\ inb fin = m) /\
+    (exists fin, callC prog_env f prog_sbdf_ba_destroy [VPtr RIn p] m k sx hc = ONormal fin /\ inb fin = m).
 Proof.
-  intros Hp. destruct (bsE_sound _ _ _ _ (str_destroy_bs sx p (VInt 0) k m [] Hp)) as (f1 & F1).
+  intros Hp. destruct (bsE_sound _ _ _ _ (str_destroy_bs sx hc p (VInt 0) k m [] Hp)) as (f1 & F1).
   destruct (bsE_sound _ _ _ _ (ba_destroy_bs p (VInt 0) k m [] Hp)) as (f2 & F2).
   exists (Nat.max f1 f2). intros f Hf. split; eexists; (split; [first [apply F1|apply F2]; lia|reflexivity]).
 Qed.
 
 Definition ca (p : Z) (d l bv : val) (k : Z) (m o : list Z) : state :=
-  {| vars := [("src"%string, VPtr RIn p); ("dst"%string, d); ("l"%string, l); (budget_var, bv); (fail_var, VInt k); (strm_var, VBytes sx)]; inb := m; outb := o |}.
+  {| vars := [("src"%string, VPtr RIn p); ("dst"%string, d); ("l"%string, l); (budget_var, bv); (fail_var, VInt k); (strm_var, VBytes sx); (cells_var, VHeap hc)]; inb := m; outb := o |}.
 
 Lemma copy_array_bs pre payload post d l bv k o : zlen payload <= int_max ->
   let m := pre ++ le32 (zlen payload) ++ payload ++ post in
@@ -203,7 +205,7 @@ Proof.
   set (n := zlen payload) in *.
   assert (Hlm : zlen m = zlen pre + 4 + n + zlen post) by (unfold m; rewrite !zlen_app; change (zlen (le32 n)) with 4; fold n; lia).
   pose proof (get_array_length_bs2 pre n (payload ++ post) bv k o ltac:(lia)) as GL. fold m in GL.
-  pose proof (allocate_array_bs sx n VUndef bv k m o Pl ltac:(unfold int_max; lia)) as AL.
+  pose proof (allocate_array_bs sx hc n VUndef bv k m o Pl ltac:(unfold int_max; lia)) as AL.
   assert (Hsk : skipn (Z.to_nat (zlen pre + 4)) m = payload ++ post).
   { unfold m. rewrite app_assoc. replace (zlen pre + 4) with (zlen (pre ++ le32 n)) by (rewrite zlen_app; reflexivity). apply skipn_app_zlen. }
   eapply bsE_seq; [eapply bsE_decl0; evh; reflexivity|]. eapply bsE_seq; [eapply bsE_decl0; evh; reflexivity|].
@@ -230,7 +232,7 @@ Qed.
 Theorem copy_array_source pre payload post k : zlen payload <= int_max ->
   let m := pre ++ le32 (zlen payload) ++ payload ++ post in
   exists f0, forall f, (f0 <= f)%nat -> exists fin,
-    callH prog_env f prog_sbdf_copy_array [VPtr RIn (zlen pre + 4)] m k sx = OReturn (if k =? 0 then VNull else VPtr RIn (zlen m + 4)) fin /\
+    callC prog_env f prog_sbdf_copy_array [VPtr RIn (zlen pre + 4)] m k sx hc = OReturn (if k =? 0 then VNull else VPtr RIn (zlen m + 4)) fin /\
     inb fin = (if k =? 0 then m else ba_mem m payload []).
 Proof.
   intros Hmax m. pose proof (copy_array_bs pre payload post VUndef VUndef (VInt 0) k [] Hmax) as B. cbv zeta in B. fold m in B.
@@ -238,7 +240,7 @@ Proof.
 Qed.
 
 Definition fails_clean (f : func) (args : list val) (m : list Z) : Prop :=
-  exists f0, forall fu, (f0 <= fu)%nat -> exists fin, callH prog_env fu f args m 0 sx = OReturn VNull fin /\ inb fin = m.
+  exists f0, forall fu, (f0 <= fu)%nat -> exists fin, callC prog_env fu f args m 0 sx hc = OReturn VNull fin /\ inb fin = m.
 
 Theorem alloc_failure_source :
   (forall q n m, 0 <= n -> n + 1 <= int_max -> 0 <= q -> q + n <= zlen m -> fails_clean prog_sbdf_str_create_len [VPtr RIn q; VInt n] m) /\
@@ -248,7 +250,7 @@ Theorem alloc_failure_source :
   (forall pre payload post, zlen payload <= int_max -> fails_clean prog_sbdf_copy_array [VPtr RIn (zlen pre + 4)] (pre ++ le32 (zlen payload) ++ payload ++ post)).
 Proof.
   repeat split; intros.
-  - destruct (str_create_len_source sx q n m 0) as (f0 & F); auto. exists f0. exact F.
+  - destruct (str_create_len_source sx hc q n m 0) as (f0 & F); auto. exists f0. exact F.
   - destruct (str_create_source pre bytes post 0) as (f0 & F); auto. exists f0. exact F.
   - destruct (str_copy_source pre bytes post 0) as (f0 & F); auto. exists f0. exact F.
   - destruct (ba_create_source q n m 0) as (f0 & F); auto. exists f0. exact F.
